@@ -898,7 +898,11 @@ class TaskGroup(abc.TaskGroup):
                     if not isinstance(exc, CancelledError):
                         self._exceptions.append(exc)
 
-                    if not self.cancel_scope._effectively_cancelled:
+                        # Cancel the group's own scope even if an enclosing scope has
+                        # been cancelled already: that cancellation stops reaching the
+                        # remaining tasks if this scope is shielded later
+                        self.cancel_scope.cancel()
+                    elif not self.cancel_scope._effectively_cancelled:
                         self.cancel_scope.cancel()
                 else:
                     task_status_future.set_exception(exc)
